@@ -63,6 +63,10 @@ def lean_ty(t):
         return "Cx R"
     if t == "unit":
         return "Unit"
+    if t == "str":
+        return "String"
+    if t == "Ast":
+        return "Nat"              # an accepted source chunk: the model records its node count
     if isinstance(t, tuple):
         if t[0] == "fn":
             return " → ".join(atom(lean_ty(x)) for x in t[1] + [t[2]])
@@ -70,6 +74,10 @@ def lean_ty(t):
             return f"List {atom(lean_ty(t[1]))}"
         if t[0] == "opt":
             return f"Option {atom(lean_ty(t[1]))}"
+        if t[0] == "res":
+            return f"Except IntError {atom(lean_ty(t[1]))}"
+        if t[0] == "map":
+            return "List (String × Macro R)"      # HashMap<&str, Macro>: association list, later entries win (Model/Interp.lean)
         if t[0] == "tup":
             return " × ".join(atom(lean_ty(x)) for x in t[1])
         if t[0] == "struct":
@@ -78,20 +86,27 @@ def lean_ty(t):
 
 
 STRUCT_LEAN = {"QReg": "QRegG R", "CReg": "CRegG", "VReg": "VRegG", "SingleOp": "SingleOp R", "BitsIter": "BitsIterG",
-               "Atom": "Atom R", "ExtOp": "ExtOp R", "Sep": "Sep", "MeasureOp": "MeasureOp", "Sym": "SymG R"}
+               "Atom": "Atom R", "ExtOp": "ExtOp R", "Sep": "Sep", "MeasureOp": "MeasureOp", "Sym": "SymG R", "Int": "Interp R", "Argument": "Arg", "IntError": "IntError"}
 STRUCT_FIELDS = {
     "QReg": [("psi", ("vec", "C")), ("q_num", "N"), ("q_mask", "N")],
     "CReg": [("value", "N"), ("q_num", "N"), ("q_mask", "N")],
     "SingleOp": [("act", "N"), ("ctrl", "N"), ("func", ("struct", "Atom"))],
     "BitsIter": [("bits", "N"), ("pos", "N")],
     "VReg": [("bits", ("vec", "N"))],
+    "Int": [("m_op", ("struct", "MeasureOp")), ("q_reg", ("vec", "str")), ("c_reg", ("vec", "str")), ("q_ops", ("struct", "ExtOp")),
+            ("macros", ("map", "Macro")), ("asts", ("vec", "Ast"))],
     "Sym": [("m_op", ("struct", "MeasureOp")), ("q_reg", ("struct", "QReg")), ("c_reg", ("struct", "CReg")), ("q_ops", ("struct", "ExtOp"))],
     "ExtOp": [("blocks", ("vec", ("tup", [("vec", ("struct", "SingleOp")), ("struct", "Sep")]))), ("tail", ("vec", ("struct", "SingleOp")))],
 }
 MULTIOP = ("vec", ("struct", "SingleOp"))
 
 
+FIELD_LEAN = {"Int": {"m_op": "mOp", "q_reg": "qReg", "c_reg": "cReg", "q_ops": "qOps"}}
+
+
 def zero_of(t):
+    if t == "str":
+        return '""'
     if is_int(t) or t in ("R", "Z"):
         return "0"
     if t == "C":
@@ -133,6 +148,7 @@ def lname(n):
 
 class Sig:
     def __init__(self, lean, params, ret, muts, inputs=(), monadic=False, self_struct=None, uses_draws=False):
+        self.kind = "Option"          # "Except" for functions returning Result<'t, T>: callers get the Result value, `?` binds it
         self.uses_draws = uses_draws  # consumes the stream of drawn basis indices (`draws`, an extra &mut-like parameter)
         self.lean = lean              # lean function name
         self.params = params          # [(rust name, type)]  (self included as ("self", struct type))
@@ -264,6 +280,7 @@ class Emitter:
         self.ret_ty = None
         self.fn_params = []
         self.uses_draws = False
+        self.monad = "Option"
 
     def fail(self, msg):
         raise Unsupported(f"{self.where}: {msg}")
@@ -290,6 +307,16 @@ class Emitter:
             return self.self_struct if isinstance(self.self_struct, tuple) and self.self_struct[0] != "struct" else self.self_struct
         if t in ("CReg", "VReg", "SingleOp", "BitsIter", "QReg", "ExtOp", "MeasureOp", "Sep"):
             return ("struct", t)
+        if t in ("&'tstr", "&'astr", "&str", "str", "'tstr", "'astr"):
+            return "str"
+        if t.startswith("Argument"):
+            return ("struct", "Argument")
+        m = re.fullmatch(r"Result<'t,(.*)>", t)
+        if m:
+            inner = m.group(1)
+            return ("res", "unit" if inner == "()" else self.ty_of_text(inner))
+        if t.startswith("implIterator<Item="):
+            return ("vec", self.ty_of_text(t[len("implIterator<Item="):-1]))
         if t == "Self" and False:
             pass
         if t in ("MultiOp", "Op") and self.tr.generic_op_is_multi or t == "MultiOp":
@@ -367,6 +394,17 @@ class Emitter:
         if k == "array":
             vs = [self.ex(x, env) for x in e[1]]
             return "[" + ", ".join(v for v, _ in vs) + "]", ("vec", vs[0][1])
+        if k == "try":
+            v, t = self.ex(e[1], env)
+            if not (isinstance(t, tuple) and t[0] == "res"):
+                self.fail("? on a value that is not a Result")
+            if self.monad != "Except":
+                self.fail("? in a function that does not return a Result")
+            u = self.gensym("u")
+            self.pending.append((u, v))
+            self.monadic = True
+            self.nflush += 1
+            return ("()" if t[1] == "unit" else u), t[1]
         if k == "checked":
             # single_op_checked!(op) = match op { op if op.is_valid() => Some(op.into()), _ => None }  (text checked by the translator)
             if not self.tr.checked_macro_ok:
@@ -430,6 +468,8 @@ class Emitter:
             return f"(none : {lean_ty(want)})", want
         if segs[-2:] == ["Sep", "Nop"]:
             return "Sep.nop", ("struct", "Sep")
+        if len(segs) >= 2 and segs[-2] in self.ENUMS and segs[-1] in self.ENUMS[segs[-2]] and not self.ENUMS[segs[-2]][segs[-1]][1]:
+            return self.ENUMS[segs[-2]][segs[-1]][0], ("struct", segs[-2])
         self.fail(f"unknown name {'::'.join(segs)}")
 
     def field(self, e, env):
@@ -446,7 +486,7 @@ class Emitter:
                 return (f"{atom(b)}.blocks", ("vec", ("tup", [MULTIOP, ("struct", "Sep")]))) if name == "0" else (f"{atom(b)}.tail", MULTIOP)
             fs = dict(STRUCT_FIELDS.get(bt[1], []))
             if name in fs:
-                return f"{atom(b)}.{name}", fs[name]
+                return f"{atom(b)}.{FIELD_LEAN.get(bt[1], {}).get(name, name)}", fs[name]
             self.fail(f"unknown field .{name} of {bt[1]}")
         if isinstance(bt, tuple) and bt[0] == "tup" and name.isdigit():
             i, n = int(name), len(bt[1])
@@ -504,7 +544,9 @@ class Emitter:
         if to is None:
             self.fail(f"cast to {e[2]}")
         if is_int(t) and to == "i32":
-            return v, "i32"                  # callers cast small non-negative values (a bit count)
+            return v, "i32"
+        if t == "i32" and to == "N":
+            return v, "N"                    # an index produced by the external parser: non-negative                  # callers cast small non-negative values (a bit count)
         if is_int(t) and is_int(to):
             if INT_BITS[to] >= INT_BITS[t]:
                 return v, to
@@ -528,7 +570,7 @@ class Emitter:
                 a, ta = self.ex(e[2], env, tb)
             if is_int(ta) and is_int(tb):
                 pass
-            elif ta == tb and ta in ("bool", "R", "Z"):
+            elif ta == tb and ta in ("bool", "R", "Z", "str"):
                 pass
             elif ta == tb and isinstance(ta, tuple) and op in ("==", "!="):
                 pass
@@ -650,6 +692,13 @@ class Emitter:
                     self.monadic = True
                     return dict(it, list=f"List.flatten {u}", elem=tf[1])
                 return dict(it, list=f"List.flatMap {atom(f)} {atom(it['list'])}", elem=tf[1])
+            if name in ("cloned", "copied") and not args:
+                return it
+            if name == "chain" and len(args) == 1:
+                it2 = self.iter_of(args[0], env)
+                if it2["mut"] is not None or it2["elem"] != it["elem"]:
+                    self.fail("chain of a different element type")
+                return dict(it, list=f"{atom(it['list'])} ++ {atom(it2['list'])}")
             if name == "zip" and len(args) == 1:
                 it2 = self.iter_of(args[0], env)
                 if it2["mut"] is not None:
@@ -745,7 +794,7 @@ class Emitter:
         if self.pending:
             self.nflush += 1
         for var, oe in reversed(self.pending):
-            inner = f"Option.bind {atom(oe)} (fun {var} => {inner})"
+            inner = f"{self.monad}.bind {atom(oe)} (fun {var} => {inner})"
         self.pending = []
         return inner
 
@@ -754,7 +803,7 @@ class Emitter:
         recv, name, args = e[1], e[2], e[3]
         r0 = unparen(recv)
         # iterator sinks
-        if name in ("collect", "sum", "fold", "count", "all", "for_each", "max", "min") and self.is_iter_expr(r0):
+        if name in ("collect", "sum", "fold", "count", "all", "for_each", "max", "min", "nth") and self.is_iter_expr(r0):
             return self.sink(e, env, want)
         # random draw: an input of the model
         if name == "sample" and contains(recv, ("call",)) and "thread_rng" in repr(recv):
@@ -762,6 +811,8 @@ class Emitter:
         v, t = self.ex(recv, env)
         if t == "thr" and name == "and" and len(args) == 1 and self.ex(args[0], env)[1] == "thr":
             return "()", "thr"
+        if isinstance(t, tuple) and t[0] == "map" and name == "clone" and not args:
+            return v, t
         if isinstance(t, tuple) and t[0] == "vec":
             if name == "len" and not args:
                 return f"{atom(v)}.length", "N"
@@ -772,7 +823,19 @@ class Emitter:
             if name == "contains" and len(args) == 1:
                 a, ta = self.ex(args[0], env)
                 return f"{atom(v)}.contains {atom(a)}", "bool"
+        if t == "str":
+            if name == "as_bytes" and not args:
+                return v, "bytes"
+            if name == "len" and not args:
+                return f"{atom(v)}.utf8ByteSize", "N"
+        if t == "bytes" and name == "len" and not args:
+            return f"{atom(v)}.utf8ByteSize", "N"
         if is_int(t):
+            if name == "wrapping_shl" and len(args) == 1:
+                b, tb = self.ex(args[0], env)
+                if not is_int(tb):
+                    self.fail("wrapping_shl count")
+                return f"shlW {INT_BITS[t]} {atom(v)} {atom(b)}", t          # the count is taken modulo the width
             if name == "count_ones" and not args:
                 return f"popcount {atom(v)}", "u32"
             if name in ("wrapping_add", "wrapping_sub") and len(args) == 1:
@@ -809,6 +872,11 @@ class Emitter:
                 self.pending.append((u, v))
                 self.monadic = True
                 return u, t[1]
+            if name == "ok_or" and len(args) == 1:
+                ev, et = self.ex(args[0], env)
+                if et != ("struct", "IntError"):
+                    self.fail("ok_or with something else than the interpreter's error type")
+                return f"(match {v} with | some x => Except.ok x | none => Except.error {atom(ev)})", ("res", t[1])
             if name == "and_then" and len(args) == 1:
                 f, tf, mon = self.closure(args[0], [t[1]], env)
                 if mon or not (isinstance(tf, tuple) and tf[0] == "opt"):
@@ -855,6 +923,8 @@ class Emitter:
             self.need_input(n, ty)
             args.append(n)
         call = f"{sig.lean} {' '.join(args)}" if args else sig.lean
+        if sig.kind == "Except":
+            return f"({call})" if args else call, ("res", sig.ret)
         if sig.monadic:
             u = self.gensym("u")
             self.pending.append((u, call))
@@ -874,8 +944,10 @@ class Emitter:
         if e[0] == "range":
             return True
         if e[0] == "mcall":
-            if e[2] in ("iter", "iter_mut", "into_iter", "enumerate", "rev", "map", "filter", "filter_map", "zip", "flat_map"):
+            if e[2] in ("iter", "iter_mut", "into_iter", "enumerate", "rev", "map", "filter", "filter_map", "zip", "flat_map", "chain", "cloned", "copied"):
                 return True
+        if e[0] == "path" and len(e[1]) == 1 and e[1][0] in getattr(self, "_iter_vars", ()):
+            return True
         if e[0] == "call" and unparen(e[1])[0] == "path" and unparen(e[1])[1][-2:] == ["BitsIter", "from"]:
             return True
         return False
@@ -912,6 +984,9 @@ class Emitter:
             if mon or tf != ti:
                 self.fail("fold closure")
             return f"List.foldl {atom(f)} {atom(init)} {atom(it['list'])}", ti
+        if name == "nth" and len(args) == 1:
+            i, ti = self.ex(args[0], env, "N")
+            return f"{atom(it['list'])}[{i}]?", ("opt", it["elem"])
         if name == "all" and len(args) == 1:
             f, tf, mon = self.closure(args[0], [it["elem"]], env)
             if mon or tf != "bool":
@@ -926,6 +1001,33 @@ class Emitter:
             self.fail("call of a non-path")
         segs = f[1]
         last = segs[-1]
+        if len(segs) >= 2 and segs[-2] in self.ENUMS and last in self.ENUMS[segs[-2]]:
+            ctor, tys = self.ENUMS[segs[-2]][last]
+            if len(tys) != len(args):
+                self.fail(f"constructor {segs[-2]}::{last} arity")
+            vs = [self.ex(a, env, ty) for a, ty in zip(args, tys)]
+            for (v, t), ty in zip(vs, tys):
+                if t != ty and not (is_int(t) and is_int(ty)):
+                    self.fail(f"constructor {segs[-2]}::{last}: {t} where {ty} is expected")
+            return f"({ctor} " + " ".join(atom(v) for v, _ in vs) + ")", ("struct", segs[-2])
+        if segs[-2:] == ["Error", last] and last[0].isupper():
+            # the interpreter's error type: same constructor names, lower camel case, in the model
+            vs = [self.ex(a, env) for a in args]
+            ctor = "IntError." + last[0].lower() + last[1:]
+            return (f"({ctor} " + " ".join(atom(v) for v, _ in vs) + ")") if vs else ctor, ("struct", "IntError")
+        if last == "Ok" and len(args) == 1:
+            a0 = unparen(args[0])
+            if a0 == ("tuple", []):
+                return "(Except.ok () : Except IntError Unit)", ("res", "unit")
+            v, t = self.ex(args[0], env, want[1] if isinstance(want, tuple) and want[0] == "res" else None)
+            return f"(Except.ok {atom(v)} : {lean_ty(('res', t))})", ("res", t)
+        if last == "Err" and len(args) == 1:
+            v, t = self.ex(args[0], env)
+            if t != ("struct", "IntError"):
+                self.fail("Err of something else than the interpreter's error type")
+            if not (isinstance(want, tuple) and want[0] == "res"):
+                self.fail("Err(..) without a known result type")
+            return f"(Except.error {atom(v)} : {lean_ty(want)})", want
         if last == "Some" and len(args) == 1:
             v, t = self.ex(args[0], env, want[1] if isinstance(want, tuple) and want[0] == "opt" else None)
             return f"some {atom(v)}", ("opt", t)
@@ -951,8 +1053,13 @@ class Emitter:
             self.fail("unreachable in expression position")
         if len(segs) == 1 and segs[0] in env and isinstance(env[segs[0]][1], tuple) and env[segs[0]][1][0] == "fn":
             v, t = env[segs[0]]
-            a = [self.ex(x, env, pt)[0] for x, pt in zip(args, t[1])]
-            return f"{v} {' '.join(atom(x) for x in a)}", t[2]
+            a = []
+            for x, pt in zip(args, t[1]):
+                if isinstance(pt, tuple) and pt[0] == "vec" and self.is_iter_expr(unparen(x)):
+                    a.append(self.iter_of(x, env)["list"])
+                else:
+                    a.append(self.ex(x, env, pt)[0])
+            return f"({v} {' '.join(atom(x) for x in a)})", t[2]
         if len(segs) >= 3 and segs[-2] == "Op" and last == "new":
             sig = self.tr.sigs.get((segs[-3], "new"))
         else:
@@ -984,7 +1091,7 @@ class Emitter:
                     v, t = self.ex(d[fname], env, fty)
                     if t != fty:
                         self.fail(f"field {fname}: {t} instead of {fty}")
-                    parts.append(f"{fname} := {v}")
+                    parts.append(f"{FIELD_LEAN.get(sname, {}).get(fname, fname)} := {v}")
                 elif b is None:
                     self.fail(f"field {fname} missing in Self literal")
             if b is not None:
@@ -1104,6 +1211,8 @@ class Emitter:
                 return self.stmts([], self.threading_arm(t), env, k, want)
             if t[0] == "match" and self.match_to_if(t) is not None:
                 return self.stmts([], self.match_to_if(t), env, k, want)
+            if t[0] == "match" and not self.is_threading_match(t):
+                return self.enum_match(t, env, k, want)
             if t[0] == "return":
                 return self.do_return(t, env)
             if t[0] in ("block", "unsafe"):
@@ -1119,6 +1228,24 @@ class Emitter:
         cont = lambda env2: self.stmts(rest, tail, env2, k, want)
         if s[0] == "let":
             return self.let_stmt(s, env, cont)
+        if s[0] == "fnitem":
+            _, fname, fparams, fret, fbody = s
+            sub = Emitter(self.tr, f"{self.where}::{fname}", self.self_struct)
+            envf, ptys, binder = {}, [], ""
+            for nm, ty in fparams:
+                t = sub.ty_of_text(ty)
+                ptys.append(t); envf[nm] = (lname(nm), t)
+                binder += f" ({lname(nm)} : {lean_ty(t)})"
+            rt = sub.ty_of_text(fret) if fret else "unit"
+            v, tv = sub.stmts(fbody[1], fbody[2], envf, lambda env2, v: v, rt)
+            if sub.pending or sub.monadic or sub.aux:
+                self.fail(f"nested fn {fname} is not a plain expression")
+            if tv != rt and not (is_int(tv) and is_int(rt)):
+                self.fail(f"nested fn {fname} returns {tv} instead of {rt}")
+            lean = f"{self.tr.cur_lean}_{fname}"
+            self.aux.append(f"def {lean}{binder} : {lean_ty(rt)} :=\n  {v}\n")
+            env = dict(env); env[fname] = (lean, ("fn", ptys, rt))
+            return cont(env)
         if s[0] == "assign":
             lets = self.assign(s[1], s[2], s[3], env)
             return self.with_pending(lambda: self.wrap_lets(lets, cont(env)))
@@ -1148,6 +1275,9 @@ class Emitter:
                 if e[1] in ("assert", "assert_eq", "debug_assert"):
                     return cont(env)
                 self.fail(f"macro {e[1]}!")
+            if e[0] == "try":
+                self.ex(e, env)
+                return self.with_pending(lambda: cont(env))
             return self.effect(e, env, cont)
         self.fail(f"statement {s[0]}")
 
@@ -1298,6 +1428,14 @@ class Emitter:
                 # `mem::take` leaves the default value behind
                 return self.wrap_lets(lets, self.set_place(src, "({ blocks := [], tail := [] } : ExtOp R)", env2, cont))
             self.fail("Op(..) pattern")
+        if e0[0] == "call" and unparen(e0[1])[0] == "path" and unparen(e0[1])[1][-2:] == ["mem", "take"] and len(e0[2]) == 1 and pat[0] == "pid":
+            place = e0[2][0]
+            old, told = self.ex(place, env)
+            if not (isinstance(told, tuple) and told[0] == "vec"):
+                self.fail("mem::take of something else than a queue")
+            n = lname(pat[1])
+            env2 = dict(env); env2[pat[1]] = (n, told)
+            return self.wrap_lets([f"let {n} := {old}"], self.set_place(place, f"([] : {lean_ty(told)})", env2, cont))
         if e0[0] == "call" and unparen(e0[1])[0] == "path" and unparen(e0[1])[1][-2:] == ["mem", "replace"] and len(e0[2]) == 2 and pat[0] == "pid":
             place, newv = e0[2]
             old, told = self.ex(place, env)
@@ -1420,6 +1558,7 @@ class Emitter:
                     ft = fs[lf]
                 elif key in fs:
                     ft = fs[key]
+                    lf = FIELD_LEAN.get(t[1], {}).get(key, key)
                 else:
                     self.fail(f"unknown field .{key}")
                 inner = self.update(f"{atom(cur)}.{lf}", ft, path[1:], rhs, env)
@@ -1495,6 +1634,12 @@ class Emitter:
                     if name == "extend" and len(args) == 1:
                         it = self.iter_of(args[0], env)
                         return self.with_pending(lambda: self.set_place(recv, f"{atom(rv)} ++ {atom(it['list'])}", env, cont))
+                if isinstance(rt, tuple) and rt[0] == "map":
+                    if name == "extend" and len(args) == 1:
+                        x, tx = self.ex(args[0], env, rt)
+                        if tx != rt:
+                            self.fail("extend of a different map type")
+                        return self.with_pending(lambda: self.set_place(recv, f"Rs.mapExtend {atom(rv)} {atom(x)}", env, cont))
                 if isinstance(rt, tuple) and rt[0] == "struct":
                     sig = self.tr.method(rt[1], name)
                     if sig is not None and sig.muts:
@@ -1544,6 +1689,8 @@ class Emitter:
                 if t[1] == "ExtOp" and key in ("0", "1"):
                     lf = "blocks" if key == "0" else "tail"
                     ft = fs[lf]
+                if ft is not None and t[1] in FIELD_LEAN:
+                    lf = FIELD_LEAN[t[1]].get(key, key)
                 if ft is None:
                     self.fail(f"unknown field .{key}")
                 inner = self.update_raw(f"{atom(cur)}.{lf}", ft, path[1:], newval)
@@ -1873,7 +2020,8 @@ class Emitter:
             return self.enum_match(e, env, k, want)
         self.fail("match statement")
 
-    ENUMS = {"Sep": {"Nop": ("Sep.nop", []), "Measure": ("Sep.measure", ["N", "N"]), "IfBranch": ("Sep.ifBranch", ["N", "N"]),
+    ENUMS = {"Argument": {"Qubit": ("Arg.qubit", ["str", "i32"]), "Register": ("Arg.register", ["str"])},
+             "Sep": {"Nop": ("Sep.nop", []), "Measure": ("Sep.measure", ["N", "N"]), "IfBranch": ("Sep.ifBranch", ["N", "N"]),
                      "Reset": ("Sep.reset", ["N"])},
              "MeasureOp": {"Set": ("MeasureOp.set", []), "Xor": ("MeasureOp.xor", [])}}
 
@@ -1903,9 +2051,12 @@ class Emitter:
                     if p[0] == "pid":
                         env2[p[1]] = (n, ty)
                 seen.append(pat[1][1])
-                blk = body if body[0] == "block" else ("block", [("expr", body)], None)
-                st = blk[1] + ([("expr", blk[2])] if blk[2] is not None else [])
-                bv, bt = self.stmts(st, None, env2, k, want)
+                if body[0] == "block":
+                    bv, bt = self.stmts(body[1], body[2], env2, k, want)
+                elif self.is_effect_expr(unparen(body), env2) or unparen(body)[0] in ("if", "match", "block"):
+                    bv, bt = self.stmts([("expr", body)], None, env2, k, want)
+                else:
+                    bv, bt = self.stmts([], body, env2, k, want)
                 out.append((f"| {ctor}{''.join(' ' + n for n in names)} => {bv}", bt))
             return out
         res = mk()
@@ -2418,15 +2569,37 @@ class Translator:
                     rty = "unit"          # `-> &mut Self` of a builder-style method: the new self is the result
                 else:
                     rty = em.ty_of_text(ret)
+                    if isinstance(rty, tuple) and rty[0] == "res":
+                        em.monad = "Except"
+                        em.monadic = True
+                        rty = rty[1]
             em.ret_ty = rty if rty != "unit" else None
+            if em.monad == "Except":
+                em.ret_ty = ("res", rty)
             res_tys = ([rty] if rty != "unit" else []) + [dict(ps)[m] for m in muts]
             if not res_tys:
-                raise Unsupported(f"{where}: function without a result")
+                if em.monad != "Except":
+                    raise Unsupported(f"{where}: function without a result")
+                res_tys = ["unit"]
             res_lean = " × ".join(atom(lean_ty(t)) for t in res_tys)
-            em.final_lean_ty = f"Option ({res_lean})"
+            em.final_lean_ty = f"{'Except IntError' if em.monad == 'Except' else 'Option'} ({res_lean})"
 
             def finish(env2, v):
                 comps = []
+                if em.monad == "Except":
+                    # the returned expression is itself a Result: on Ok the &mut parameters are returned with it
+                    if v is None or not (isinstance(v[1], tuple) and v[1][0] == "res"):
+                        raise Unsupported(f"{where}: returns {v[1] if v else 'nothing'} instead of a Result")
+                    if v[1][1] != rty and not (is_int(v[1][1]) and is_int(rty)):
+                        raise Unsupported(f"{where}: returns Result of {v[1][1]} instead of {rty}")
+                    ms = [env2[m][0] for m in muts]
+                    if not ms:
+                        return "RETRAW:" + atom(v[0]), None
+                    if rty == "unit":
+                        val = ms[0] if len(ms) == 1 else "(" + ", ".join(ms) + ")"
+                        return f"RETRAW:(Except.bind {atom(v[0])} (fun _ => Except.ok {atom(val)}))", None
+                    val = "(" + ", ".join(["rv_"] + ms) + ")"
+                    return f"RETRAW:(Except.bind {atom(v[0])} (fun rv_ => Except.ok {val}))", None
                 if rty != "unit":
                     if v is None:
                         raise Unsupported(f"{where}: missing return value")
@@ -2441,7 +2614,11 @@ class Translator:
             em.on_return = finish
             v, _ = em.stmts(body[1], body[2], env, finish, em.ret_ty)
             # resolve RET markers according to monadicity
-            if em.monadic:
+            if em.monad == "Except":
+                v = v.replace("RETRAW:", "")
+                rtxt = f"Except IntError ({res_lean})"
+                aux = [a.replace("RETRAW:", "") for a in em.aux]
+            elif em.monadic:
                 v = re.sub(r"RET:", "some ", v)
                 # `some (a, b)` needs parentheses around non-atomic payloads
                 v = fix_some(v)
@@ -2460,6 +2637,7 @@ class Translator:
                 self.out.append(a)
             self.out.append(f"/-- {d} -/\ndef {lean}{binder} : {rtxt} :=\n  {v}\n")
             sig = Sig(lean, ps, rty, muts, em.inputs, em.monadic, self_ty, uses_draws=em.uses_draws)
+            sig.kind = em.monad
             self.good_sigs[lean] = {"monadic": em.monadic, "inputs": [[n, t] for n, t in em.inputs], "uses_draws": em.uses_draws}
             self.register(struct, rust, sig)
             for ok, why in em.twins:
@@ -2528,9 +2706,11 @@ def load(file):
 def struct_fields(toks, name):
     """[(field, type text)] of `struct name { .. }`"""
     for i in range(len(toks) - 2):
-        if toks[i] == ("id", "struct") and toks[i + 1] == ("id", name) and toks[i + 2][1] == "{":
+        if toks[i] == ("id", "struct") and toks[i + 1] == ("id", name) and toks[i + 2][1] in ("{", "<"):
             from rsparse import Parser
             p = Parser(toks, i + 2)
+            if p.at("<"):
+                p.eat(); p._skip_generic()
             p.eat("{")
             out = []
             while not p.at("}"):
@@ -2756,6 +2936,21 @@ def main():
         T(q, "register/quant.rs", "get_vreg", "quant_get_vreg", struct="QReg", impl=r"impl Reg")
         T(q, "register/quant.rs", "get_vreg_by", "quant_get_vreg_by", struct="QReg", impl=r"impl Reg")
     group("register/quant.rs", quant)
+
+    # ---- qasm/int/mod.rs: declarations, argument resolution, measure / reset statements, queue separators
+    # (the model's record `Interp R` is used for the interpreter state; gate application / definitions, which
+    # need the macro table and the external AST, stay hand-modelled)
+    def intfile(t):
+        fs = struct_fields(t, "Int")
+        want = ["m_op", "q_reg", "c_reg", "q_ops", "macros", "asts"]
+        if [n for n, _ in fs] != want:
+            raise Unsupported(f"struct Int has fields {[n for n, _ in fs]}, the translation expects {want}")
+        I = r"impl < 't > Int < 't >"
+        for k in ["check_ident", "check_reg_size", "check_dup", "branch", "branch_with_id", "xor", "get_idx_by_alias",
+                  "get_q_idx_with_context", "get_c_idx_with_context", "process_qreg", "process_creg", "process_barrier",
+                  "process_opaque", "process_reset", "process_measure", "append_int", "prepend_int"]:
+            T(t, "qasm/int/mod.rs", k, "int_" + k, struct="Int", impl=I, default_elem="str")
+    group("qasm/int/mod.rs", intfile)
 
     # ---- qasm/sym.rs
     def symfile(t):
